@@ -17,6 +17,7 @@ func init() {
 		Explanation: "C20.1 range arithmetic of the port-range generator under the precondition 1 ≤ MinPort ≤ MaxPort ≤ 65535 (linear forms evaluated at the polytope's vertices): the argument of every Intn is ≥ 1, the port that reaches the bind call lies in [MinPort, MaxPort], and no uint16 expression tree wraps at its root (MaxPort = 65535 and single-port ranges included); " +
 			"C20.2 the advertised address is the bound socket's own LocalAddr()/Addr() with only its IP overwritten by RelayAddress (range, static) or untouched (none), and a requested port is passed unchanged to the bind call; " +
 			"C20.3 clean failure: every return with a non-nil error returns no socket, and the retry loops are bounded by MaxRetries; " +
+			"C20.5 requested ports are not invented: a non-zero RequestedPort handed to a generator is a port a generator bound before (read from the address it returned), or that port + 1 (the RFC 5766 reservation pair); " +
 			"C20.4 UDP relay sockets are bound by a plain ListenPacket: SO_REUSEPORT (reuseport.Control) is referenced only by the TCP listener/dialer paths, so a busy UDP port is refused by the kernel rather than shared.",
 		NotCovered: "that two live sockets cannot share a port is the kernel's bind() semantics; the quality of the random source; a MinPort > MaxPort configuration (outside the property's precondition).",
 		Run:        runC20,
@@ -602,6 +603,7 @@ func runC20(c *Ctx) {
 	if n := len(c.Notes); n == 0 {
 		c.Notes = append(c.Notes, "advisory: in the UDP AllocatePacketConn paths the socket is not closed when conn.LocalAddr() is not a *net.UDPAddr (unreachable with the standard net package)")
 	}
+	ruleRequestedPortsNotInvented(c, "C20.5")
 }
 
 func isClosureCall(w *World, call *ssa.Call) bool {
@@ -642,4 +644,160 @@ func sockAddrErrResults(f *ssa.Function) bool {
 		return false
 	}
 	return res.At(res.Len()-1).Type().String() == "error" && res.At(1).Type().String() == "net.Addr"
+}
+
+// ruleRequestedPortsNotInvented (C20.5): the generators pass a requested port straight to the
+// bind (C20.2) — the range is enforced only for ports they draw themselves. The only
+// legitimate non-zero requests are therefore ports that came out of a generator: the port of
+// an address a generator returned (the even port found by probing) and that port + 1 (the
+// pair reserved with a RESERVATION-TOKEN). Any other arithmetic on a port on its way to
+// AllocateListenerConfig.RequestedPort can name a port outside the configured range.
+func ruleRequestedPortsNotInvented(c *Ctx, rule string) {
+	w := c.W
+	c.Rule(rule, "requested ports are not invented: every value stored into AllocateListenerConfig.RequestedPort (through parameters at all call sites, locals, phis, the reservation table) is the constant 0, the Port of a net.UDPAddr/TCPAddr obtained from a generator's returned address, or such a port + 1", 1)
+	cfgT := w.Named("allocation", "AllocateListenerConfig")
+	st, _ := cfgT.Underlying().(*types.Struct)
+	var rpF *types.Var
+	for i := 0; st != nil && i < st.NumFields(); i++ {
+		if st.Field(i).Name() == "RequestedPort" {
+			rpF = st.Field(i)
+		}
+	}
+	if rpF == nil {
+		failf("anchor unresolved: field allocation.AllocateListenerConfig.RequestedPort")
+	}
+	var origin func(v ssa.Value, plus int, depth int, seen map[ssa.Value]bool) string
+	origin = func(v ssa.Value, plus int, depth int, seen map[ssa.Value]bool) string {
+		v = stripIntConv(w.resolveLoad(v))
+		if depth > 8 {
+			return "too deep: " + w.key(v)
+		}
+		if seen[v] {
+			return ""
+		}
+		seen[v] = true
+		defer delete(seen, v)
+		switch x := v.(type) {
+		case *ssa.Const:
+			if k, ok := constInt(x); ok && k == 0 && plus == 0 {
+				return ""
+			}
+			return "the constant " + w.key(x)
+		case *ssa.Phi:
+			for _, e := range x.Edges {
+				if r := origin(e, plus, depth+1, seen); r != "" {
+					return r
+				}
+			}
+			return ""
+		case *ssa.BinOp:
+			if k, ok := constInt(x.Y); ok && x.Op == token.ADD && k == 1 && plus == 0 {
+				return origin(x.X, 1, depth+1, seen)
+			}
+			return "computed as " + w.key(x)
+		case *ssa.Parameter:
+			fn := x.Parent()
+			idx := paramIndex(x)
+			n := 0
+			if node := w.CG.Nodes[fn]; node != nil {
+				for _, e := range node.In {
+					if e.Site == nil || !w.IsMod[e.Caller.Func] {
+						continue
+					}
+					args := e.Site.Common().Args
+					off := 0
+					if e.Site.Common().IsInvoke() {
+						off = 1
+					}
+					if idx-off >= 0 && idx-off < len(args) {
+						n++
+						if r := origin(args[idx-off], plus, depth+1, seen); r != "" {
+							return r
+						}
+					}
+				}
+			}
+			if n == 0 {
+				return "parameter " + x.Name() + " of " + fname(fn) + " (an API entry point)"
+			}
+			return ""
+		case *ssa.Extract:
+			if call, ok := x.Tuple.(*ssa.Call); ok {
+				if h := call.Call.StaticCallee(); h != nil && w.IsMod[h] && len(h.Blocks) > 0 {
+					for _, r := range returnsOf(h) {
+						if x.Index < len(r.Results) {
+							if isZeroConst(stripIntConv(w.resolveLoad(r.Results[x.Index]))) {
+								continue // the error returns' zero
+							}
+							if rr := origin(r.Results[x.Index], plus, depth+1, seen); rr != "" {
+								return rr
+							}
+						}
+					}
+					return ""
+				}
+			}
+		case *ssa.Call:
+			if h := x.Call.StaticCallee(); h != nil && w.IsMod[h] && len(h.Blocks) > 0 {
+				for _, r := range returnsOf(h) {
+					if len(r.Results) > 0 {
+						if rr := origin(r.Results[0], plus, depth+1, seen); rr != "" {
+							return rr
+						}
+					}
+				}
+				return ""
+			}
+		case *ssa.UnOp:
+			if x.Op == token.MUL {
+				if fa, ok := x.X.(*ssa.FieldAddr); ok {
+					f := fieldOf(fa)
+					owner := ""
+					if n := namedOf(fa.X.Type()); n != nil {
+						owner = n.Obj().Pkg().Path() + "." + n.Obj().Name()
+					}
+					if f.Name() == "Port" && (owner == "net.UDPAddr" || owner == "net.TCPAddr") {
+						return "" // the port of a bound address
+					}
+					// a module field (reservation.port, a config field): what is stored there
+					if f.Pkg() != nil && strings.HasPrefix(f.Pkg().Path(), modPath) {
+						vals := w.flow().fieldStore[f]
+						if len(vals) == 0 {
+							return "the unset field " + f.Name()
+						}
+						for _, sv := range vals {
+							if r := origin(sv, plus, depth+1, seen); r != "" {
+								return r
+							}
+						}
+						return ""
+					}
+				}
+			}
+		}
+		return w.key(v)
+	}
+	n := 0
+	for _, fn := range w.ModFns {
+		w.eachInstr(fn, func(in ssa.Instruction) {
+			stI, ok := in.(*ssa.Store)
+			if !ok {
+				return
+			}
+			fa, ok := stI.Addr.(*ssa.FieldAddr)
+			if !ok || fieldOf(fa) != rpF {
+				return
+			}
+			n++
+			c.Anchor(rule, fname(fn))
+			if r := origin(stI.Val, 0, 0, map[ssa.Value]bool{}); r == "" {
+				c.OK(rule, fname(fn), "RequestedPort", w.instrPos(in), "0, a generator-bound port, or that port + 1")
+			} else {
+				c.Bad(rule, fname(fn), "RequestedPort", w.instrPos(in), "the port requested from the relay address generator here can be "+r+": not a port a generator bound (nor its reservation pair) — the generators bind a requested port without looking at the configured range, so the allocation can land outside [MinPort, MaxPort]")
+			}
+		})
+	}
+	if n == 0 {
+		c.Bad(rule, "-", "RequestedPort", "-", "no RequestedPort is ever set: anchor gone")
+	}
 }
